@@ -503,6 +503,8 @@ class CPreProcessor:
 
         while parens > 0:
             token = self.next_token(expand=False)
+            if token is None:
+                self.error("Unterminated argument list of a macro invocation")
 
             # Keep track of parenthesis level:
             if token.typ == "(":
